@@ -68,7 +68,7 @@ Definition byte_of (w : Z) (j : Z) : Z := (w / 256 ^ (31 - j)) mod 256.
 (* ---- oracle *)
 Record oracle := mkO {
   (* unmodelled instruction: outputs, new memory, new returndata version, new world; None = halt *)
-  o_step : inst -> list val -> state -> option (list val * mem * Z * Z);
+  o_step : inst -> list val -> state -> option (list Z * mem * Z * Z);
   (* bytes of the non-memory address spaces; returndata depends on the returndata version *)
   o_src : string -> Z -> val -> Z -> Z;
   (* the word a stored pointer is seen as *)
@@ -82,18 +82,34 @@ Definition src_byte (O : oracle) (op : string) (s : state) (src : val) (k : Z) :
   o_src O op (if String.eqb op "returndatacopy" then srd s else 0) src k.
 Definition word_val (O : oracle) (v : val) : Z := match v with (None, w) => w | (Some i, k) => o_conc O i k end.
 
-Fixpoint set_outs (vs : N -> option val) (outs : list N) (l : list val) : option (N -> option val) :=
+(* outputs of oracle instructions are plain words (pointers only arise from alloca / add / sub / assign / phi) *)
+Fixpoint set_outs (vs : N -> option val) (outs : list N) (l : list Z) : option (N -> option val) :=
   match outs, l with
   | [], [] => Some vs
-  | x :: t, v :: r => set_outs (upd vs x v) t r
+  | x :: t, v :: r => set_outs (upd vs x (None, v)) t r
   | _, _ => None
   end.
 
 Definition with_vars (s : state) (vs : N -> option val) : state := mkS vs (smem s) (srd s) (sworld s) (spred s).
 Definition with_mem (s : state) (m : mem) : state := mkS (vars s) m (srd s) (sworld s) (spred s).
 
+(* phi: operands are (label, value) pairs; the value paired with the predecessor block is taken.  Phis are executed
+   one after the other (the real semantics evaluates the phis of a block simultaneously; the two differ only when a phi
+   reads the output of an earlier phi of the same block) *)
+Fixpoint phi_pick (pred : N) (ops : list operand) : option operand :=
+  match ops with
+  | OLab l :: o :: ops' => if N.eqb l pred then Some o else phi_pick pred ops'
+  | _ => None
+  end.
+
 (* one non-terminator instruction; None = halt / stuck *)
 Definition exec (O : oracle) (i : inst) (s : state) : option state :=
+  if String.eqb (i_op i) "phi" then
+    match phi_pick (spred s) (i_args i), i_outs i with
+    | Some o, [x] => match oval s o with Some v => Some (with_vars s (upd (vars s) x v)) | None => None end
+    | _, _ => None
+    end
+  else
   match ovals s (i_args i) with
   | None => None
   | Some args =>
@@ -144,7 +160,12 @@ Fixpoint exec_block (O : oracle) (b : list inst) (s : state) : option (state * o
   | [] => Some (s, None)
   | [t] => match ovals s (i_args t) with
            | None => None
-           | Some args => Some (s, o_next O t args s)
+           | Some args =>
+               match o_next O t args s with
+               | Some l => if existsb (fun o => match o with OLab l' => N.eqb l l' | _ => false end) (i_args t)
+                           then Some (s, Some l) else Some (s, None)
+               | None => Some (s, None)
+               end
            end
   | i :: r => match exec O i s with None => None | Some s' => exec_block O r s' end
   end.
